@@ -44,6 +44,8 @@ Oracle (the property, public accessors only; _c14_impl.oracle_run): each pass up
   following round changes nothing; I1-I6 link consistency, sorted stays sorted, names needed by serialization kept,
   serializable stays serializable; analysis passes (CheckerPass always, ShapeInferencePass when inference fails
   or raises) leave a deep snapshot (initializer order, const_value identity, inputs, shapes, types) unchanged.
+  Output ownership: a graph output produced by a node must be produced by a node of that very graph (a pass that
+  inserts a node for an output puts it into the graph that owns the output); run on dup_output_family().
   No dangling calls: a call that resolved to a model-local function before a pass still resolves after it.
   Pass-instance reuse: one pass object / PassManager over a sequence of different models must honour the contract on
   each model and behave (per round: raised / modified / serialization equal / kinds of change) like a fresh instance.
@@ -1226,6 +1228,12 @@ All reported VIOLATION; "replay" = a concrete failing input found by the oracle,
        different models (function_family in 4 orders + a random sequence, every catalog pass + 5 compositions), runs the
        per-model oracle each time and compares the per-round behaviour with a fresh instance (shrunk to the shortest
        failing sequence: [main->F0, main->F0->F1] -> dangling-call fdom::F1 + reuse mismatch).
+ S7  (seeded/C14-r4m3) OutputFixPass appends the alias Identity of a duplicated SUBGRAPH output to the root graph
+       -> FIRST MISSED (generated subgraphs always had exactly one output); now replay (OutputFix: invariants
+       I1:dangling-input + I4:output-produced-in-another-graph) through: gen_graph gives If nodes two outputs with branches
+       that may return the same value twice (any depth), dup_output_family() (depth 1, depth 2, both branches, inside a
+       function body, mixed with main-graph duplicates and direct inputs) run for every pass, and the new invariant
+       "a graph output that a node produces is produced by a node of the graph that lists it" (reported only when new).
 Also checked: with the four fix commits reverted (old HEAD 823601c) the check reported the six findings
 (KNOWN-FINDING while they were status "known"); with the fixes applied and the old models it reported every
 finding stale + broken correspondences (no false VIOLATION input in 26k oracle evaluations).
